@@ -19,7 +19,7 @@ type vReader struct {
 	chunk  int
 	failAt int // -1: never
 	reads  int
-	maxReq int // largest len(p) seen while pos was inside the data
+	maxEnd int // furthest stream offset any Read call asked for
 }
 
 var vErrFault = errors.New("verif: injected read fault")
@@ -28,6 +28,9 @@ func (r *vReader) Read(p []byte) (int, error) {
 	r.reads++
 	if len(p) == 0 {
 		return 0, nil
+	}
+	if r.pos+len(p) > r.maxEnd {
+		r.maxEnd = r.pos + len(p)
 	}
 	if r.failAt >= 0 && r.pos >= r.failAt {
 		return 0, vErrFault
